@@ -25,6 +25,7 @@ def run(ctx, R, tier):
     hygiene(F, R)
     once(F, R)
     per_frame_ops(F, R)
+    stages_every_path(F, R)
     order(F, R)
     send(F, R)
     ibs(F, R)
@@ -41,6 +42,9 @@ def run(ctx, R, tier):
     # a removed branch contributes silence: the removal flag a dropped handle raises is the one the audio side reads (C08)
     from .c08 import drops
     drops(F, R)
+    # 'multiplied by the volume ...': the volume in use is the parameter's, not a cached copy of it
+    from .c06 import param_cache
+    param_cache(F, R, rule='B.C02.param-cache', fn_filter=lambda q: q.startswith('track::') or q.startswith('backend::'), floor=5)
 
 
 def builders(F, R):
@@ -436,6 +440,41 @@ def ibs(F, R):
                 'the device buffer is chunked by %s, not internal_buffer_size * num_channels' % d, detail={'chunk': d})
         m += 1
     R.floor('B.C02.ibs.slice', m, 9)
+
+
+def stages_every_path(F, R, rule='B.C02.flow'):
+    """'Scaled by the volume of every track on its path ... plus that signal through every send route': the stage of a mixing
+    function that applies the track's gain (the per-frame `*=`), the stage that feeds the sends (`add_input`) and the stage
+    that takes in what was routed to a send track (`+=` of the input accumulator) lie on every path to a return - no
+    early-out skips them - except the silent exit of a frozen track (B.C12.freeze says what that exit may do)."""
+    from ..rules import bool_edges
+    spec = [(TRACK, 'gain', frame_op('mul_assign')), (MAIN, 'gain', frame_op('mul_assign')), (SEND, 'gain', frame_op('mul_assign')),
+            (SEND, 'input', frame_op('add_assign')),
+            (TRACK, 'sends', lambda p, t: p == SEND + '::add_input')]
+    n = 0
+    for owner, stage, pred in spec:
+        b = F.body(owner + '::process')
+        key = '%s:%s' % (owner.split('::')[-1], stage)
+        if not R.check(b is not None, rule, 'anchor:' + key, '%s::process not found' % owner):
+            continue
+        sites = op_sites(F, b, pred)
+        if not R.check(bool(sites), rule, 'anchor:' + key + ':site', 'no %s stage in %s::process' % (stage, owner)):
+            continue
+        n += 1
+        anchors = []
+        for x in sites:
+            ls = b.in_loop(x)
+            anchors.append(max(ls, key=lambda l: len(l['blocks']))['header'] if ls else x)
+        silent = set()
+        adv = calls_to(b, 'sound::PlaybackState::is_advancing')
+        if adv:
+            be = bool_edges(b, adv[0][0])
+            if be:
+                silent = b.reachable([be[1]], stop=anchors) - b.reachable([be[0]], stop=anchors)
+        skipped = [r for r in b.return_blocks() if r not in silent and not must_pass(b, [0], [r], anchors)]
+        R.check(not skipped, rule, key, 'the %s stage of %s::process can be skipped: a path reaches the return at %s without it'
+                % (stage, owner, b.where(skipped[0]) if skipped else ''), detail={'stage': stage, 'sites': len(sites)}, where=b.where(sites[0]))
+    R.floor(rule, n, 5)
 
 
 def per_frame_ops(F, R):
